@@ -121,6 +121,9 @@ pub fn execute(scn: &Scn, property: &str) -> RunOutcome {
 
     // C07 rest tracking: values at the first ended observation of the current stint.
     let mut rest_values: Option<Vals> = None;
+    // C07: the time truly spent in the current stint, as the sum of what was delivered (an f64,
+    // which does not saturate where the animator's nanosecond clock does)
+    let mut c07_true_seconds: f64 = 0.0;
     // history shape for signatures: kinds of states visited (a = animated, u = un-animated)
     let mut history = String::new();
     history.push(if spec.animated(model.cur) { 'a' } else { 'u' });
@@ -459,7 +462,8 @@ pub fn execute(scn: &Scn, property: &str) -> RunOutcome {
                     let simple = !m.parts.is_empty() && m.parts.iter().all(|p| p.delay == 0.0 && p.repeat == Rep::None);
                     if simple && prev.tau == Duration::ZERO && prev.state.index() == cur {
                         let u32_total = m.parts.iter().map(|p| p.duration).fold(0.0f32, f32::max);
-                        if dt.to_bits() == u32_total.to_bits() && u32_total >= 1.0 / 64.0 {
+                        // (and within the range of the animator's clock: see the saturation clause)
+                        if dt.to_bits() == u32_total.to_bits() && u32_total >= 1.0 / 64.0 && u32_total < 1.8e19 {
                             out.count("probe.single_step_of_exactly_the_total");
                             if !now.ended && v.is_none() {
                                 v = Some(viol(
@@ -474,6 +478,30 @@ pub fn execute(scn: &Scn, property: &str) -> RunOutcome {
                                 ));
                             }
                         }
+                    }
+                }
+                // The clock of the animator is a `Duration`: it saturates at 2^64 s. A finite
+                // timeline whose total lies beyond that is over when the time truly spent in the
+                // state - the sum of what was delivered - has passed its total, whatever the
+                // clock shows.
+                match op {
+                    Op::Advance(dt) => c07_true_seconds += *dt as f64,
+                    Op::SetState(s) if *s as usize != model_before_cur => c07_true_seconds = model.tau.as_secs_f64(),
+                    _ => {}
+                }
+                if let Some(Some(u)) = total {
+                    if c07_tau == Duration::MAX && c07_true_seconds >= u * (1.0 + 1e-6) && !now.ended && v.is_none() {
+                        out.count("probe.clock_saturated_short_of_the_total");
+                        v = Some(viol(
+                            "C07",
+                            "clock-saturated-short-of-the-total",
+                            step,
+                            format!(
+                                "state {cur}: {c07_true_seconds:e} s have been delivered in this state, its timeline's total is {u:e} s, but the animator's clock stopped at Duration::MAX ({:e} s) and is_ended() is false - for good",
+                                Duration::MAX.as_secs_f64()
+                            ),
+                            "total-beyond-the-clock".into(),
+                        ));
                     }
                 }
                 if !band && now.ended != expected && v.is_none() {
@@ -1188,6 +1216,46 @@ fn check_c06(scn: &Scn, out: &mut RunOutcome, h: &mut ObsHash) -> Option<Violati
             // accumulator check on the off-grid split variant
             if let Some(v) = accumulator_check(spec, &var, out) {
                 return Some(v);
+            }
+        }
+    }
+    // The same elapsed time as very many very short frames: 2048 frames of 2^-32 s (0.2328 ns each,
+    // 476.8 ns together; every one of them and their sum exactly representable) after the trace
+    // must move the time in state by what one frame of 2^-21 s moves it by, to the nanosecond.
+    if scn.repartition_seed % 16 == 3 {
+        let r = catch(|| {
+            let run = |k: u32, dt: f32| {
+                let mut anim = spec.build();
+                for (op, _) in &scn.ops {
+                    match op {
+                        Op::Advance(dt) => anim.advance(*dt),
+                        Op::SetState(s) => anim.set_state(&St::from_index(*s as usize)),
+                    }
+                }
+                let before = anim.verif_snapshot().0;
+                for _ in 0..k {
+                    anim.advance(dt);
+                }
+                (before, anim.verif_snapshot().0)
+            };
+            (run(1, 2.0f32.powi(-21)), run(2048, 2.0f32.powi(-32)))
+        });
+        if let Ok(((b1, a1), (b2, a2))) = r {
+            out.evaluations += 1;
+            out.count("probe.sub_nanosecond_frames");
+            let grew_one = a1.saturating_sub(b1);
+            let grew_many = a2.saturating_sub(b2);
+            let diff = if grew_one > grew_many { grew_one - grew_many } else { grew_many - grew_one };
+            if b1 < Duration::from_secs(1_000_000_000) && diff > Duration::from_nanos(1) {
+                return Some(viol(
+                    "C06",
+                    "sub-nanosecond-frames-lost",
+                    scn.ops.len(),
+                    format!(
+                        "after the trace, 476.8 ns delivered as one frame of 2^-21 s move the time in state by {grew_one:?}; delivered as 2048 frames of 2^-32 s they move it by {grew_many:?}"
+                    ),
+                    "sub-ns".into(),
+                ));
             }
         }
     }
